@@ -733,6 +733,37 @@ fn run_byz_encoder(plan: &Plan, lib: &dyn Lib, rec: &mut Rec) {
             must_reject(rec, lib, g, ty, Codec::Bytes, &vec![1u8; len], "wrong-length scalar");
         }
     }
+    // the curve-tagged key wrapper: tag byte + 32 key bytes, exactly — through every byte importer it offers (the slice
+    // conversion, the four containers, and its own from_be_bytes / from_le_bytes, which take a slice of any length)
+    {
+        let tag = if g == Grp::G1 { 1u8 } else { 2 };
+        let key = refimpl::scalar_to_be(&refimpl::scalar_from_u64(1 + plan.seed % 1000));
+        let mut key_le = key.clone();
+        key_le.reverse();
+        for (cd, body) in [(Codec::Bytes, &key), (Codec::BytesVec, &key), (Codec::BytesBox, &key), (Codec::Be, &key), (Codec::Le, &key_le)] {
+            let exact: Vec<u8> = std::iter::once(tag).chain(body.iter().copied()).collect();
+            let ok = recode(rec, lib, g, Ty::SecretKeyEnum, cd, Codec::Be, &exact);
+            rec.expect("C16", "exact-length-importer-accepts-its-length", ok.is_ok(), || format!("enum-exact {} | the 33-byte form of a valid key is refused: {:?}", cd.name(), ok));
+            for extra in [1usize, 2, 31, 32, 33, 64] {
+                let mut e = exact.clone();
+                e.extend(std::iter::repeat(if extra % 2 == 0 { 0u8 } else { 0xa5 }).take(extra));
+                rec.fault("extend");
+                must_reject(rec, lib, g, Ty::SecretKeyEnum, cd, &e, "extended curve-tagged key");
+            }
+            for keep in [0usize, 1, 2, 17, 32] {
+                rec.fault("torn-write");
+                must_reject(rec, lib, g, Ty::SecretKeyEnum, cd, &exact[..keep], "truncated curve-tagged key");
+            }
+            let mut zero = vec![tag];
+            zero.extend_from_slice(&[0u8; 32]);
+            must_reject(rec, lib, g, Ty::SecretKeyEnum, cd, &zero, "zero curve-tagged key");
+            for bad_tag in [0u8, 3, 255] {
+                let mut e = exact.clone();
+                e[0] = bad_tag;
+                must_reject(rec, lib, g, Ty::SecretKeyEnum, cd, &e, "unknown curve tag");
+            }
+        }
+    }
     rec.sample(|| format!("g={} specimens={} point positions x (off-subgroup, off-curve, 4 flag/range violations) x (bytes, bare, json) + every strict prefix", g.name(), sps.len()));
     c.finish(rec);
 }
